@@ -236,6 +236,12 @@ ENVS = [{"USER": "alice", "LOGNAME": "alice", "HOME": "/home/alice",
          "GIT_WORK_TREE": "/tmp"},
         {"USER": "dev", "GIT_CONFIG_COUNT": "1",
          "GIT_CONFIG_KEY_0": "core.abbrev", "GIT_CONFIG_VALUE_0": "20"},
+        # (git exports these to pre-receive / update hooks and to worktrees)
+        {"USER": "git", "GIT_OBJECT_DIRECTORY": "/nonexistent/objects",
+         "GIT_ALTERNATE_OBJECT_DIRECTORIES": "/nonexistent/alt"},
+        {"USER": "wt", "GIT_COMMON_DIR": "/nonexistent/common",
+         "GIT_INDEX_FILE": "/nonexistent/index",
+         "GIT_CEILING_DIRECTORIES": "/"},
         {}]
 
 
